@@ -23,7 +23,7 @@ from vf.gen import frames as F
 from vf.gen import filters as FG
 
 VALUE_KINDS = ["int32", "int64", "float64", "float32", "str", "ostr", "dt_ns", "dt_us", "dt_ms", "cat_str", "cat_int", "Int64", "uint8",
-               "uint64", "dtz_ns", "bool", "bytes", "cat_str_ord", "Int16", "boolean", "td_us"]
+               "uint64", "dtz_ns", "bool", "bytes", "cat_str_ord", "Int16", "boolean", "td_us", "dt_s", "td_s", "td_ms"]
 
 
 def gen_cases(tier, seed):
@@ -43,6 +43,8 @@ def gen_cases(tier, seed):
             c["sorted"] = True
         c["pseed"] = int(rng.integers(0, 2 ** 31))
         c["nprog"] = 40
+        if i % 4 == 2 and c["opts"].get("file_scheme") in ("hive", "drill"):
+            c["new_style_stats"] = True
         pon = c["opts"].get("partition_on") or []
         if i % 6 == 1 and pon and c["opts"].get("file_scheme") == "hive":
             # a partition column whose name ENDS in the name of a data column (and is no identifier): conditions on the data column
@@ -181,6 +183,17 @@ def prepare(case):
     with C.writer_globals(case.get("page_size"), case.get("dpv")):
         fastparquet.write(path, df, **C.write_kwargs(opts))
     pf = fastparquet.ParquetFile(path)
+    if case.get("new_style_stats") and pf.file_scheme in ("hive", "drill", "flat"):
+        # the layout of other writers: bounds only in min_value / max_value, the deprecated min / max absent
+        for rg in pf.row_groups:
+            for ch in rg.columns:
+                st = ch.meta_data.statistics
+                if st is not None and (st.min is not None or st.max is not None):
+                    st.min_value, st.max_value = st.min, st.max
+                    st.min = None
+                    st.max = None
+        pf._write_common_metadata()
+        pf = fastparquet.ParquetFile(path)
     flat = pf.to_pandas(index=False)
     nr = [rg.num_rows for rg in pf.row_groups]
     offs = np.concatenate([[0], np.cumsum(nr)]).astype(int)
@@ -294,6 +307,8 @@ def run_case(case):
                 counters["unorderable"] = counters.get("unorderable", 0) + 1
                 continue
             counters["programs_judged"] = counters.get("programs_judged", 0) + 1
+            if case.get("new_style_stats"):
+                counters["programs_on_new_style_statistics"] = counters.get("programs_on_new_style_statistics", 0) + 1
             if case.get("suffix_named_partition"):
                 counters["programs_on_suffix_named_partitions"] = counters.get("programs_on_suffix_named_partitions", 0) + 1
             if pruned:
@@ -384,4 +399,4 @@ def coverage_extra(agg):
 
 def required(tier):
     return {"programs_judged": 3000, "programs_with_pruning": 300, "decisions_true_checked": 500, "api_reads_compared": 500,
-            "lattice_points": 1000, "programs_on_suffix_named_partitions": 100}
+            "lattice_points": 1000, "programs_on_suffix_named_partitions": 100, "programs_on_new_style_statistics": 300}
